@@ -39,7 +39,7 @@ func (t IndexType) String() string {
 
 // BTree constants
 const (
-	BTMaxCycleID       = 0xFF00
+	BTMaxCycleID       = 0xFF7F // MAX_BT_CYCLE_ID (nbtree.h)
 	BTMetaMagic        = 0x053162
 	BTPageMagic        = 0x1234 // Not used, cycle ID range check instead
 	
